@@ -56,11 +56,18 @@ def gen(tier, rng, shard, nshards):
                "tol": float(S.pick(rng, [1e-12, 1e-10, 1e-8, 1e-6, 1e-4, 1e-2, 1e-1])),
                "max_iters": int(S.pick(rng, [0, 1, 2, 3, 5, 8, 15, 30, n, 2 * n, 1000])),
                "via": S.pick(rng, ["cg", "cg", "cg", "inv"]), "wide_rhs": bool(rng.random() < 0.15), "opscale": float(S.pick(rng, [1.0, 1.0, 1.0, 1e-9, 1e9, 1e-25, 1e25]))}
+        if rng.random() < 0.06 and 5 <= n <= 40:
+            n_ = n
+            bs = [int(S.pick(rng, [b_ for b_ in (2, 3, 4, 6, 7, 9, n_ + 3) if n_ % b_ or b_ > n_])) for _ in range(2)]
+            yield_.update(opkind="kernel", bs=bs, dt="f8", opscale=1.0, precond=S.pick(rng, ["none", "jacobi"]), wide_rhs=False, family="uniform", cond=1.0)
         if yield_["opscale"] in (1e-25, 1e25) and yield_["precond"] in ("tiny-identity", "huge-identity", "spd", "nystrom"):
             # (CG guards its divisions with an absolute 1e-40: r^H P r and p^H A p must stay above it while the residual falls by
             # 1/tol, so an operator in extreme units is combined with no preconditioner or with Jacobi, whose units cancel A's)
             yield_["precond"] = S.pick(rng, ["none", "jacobi"])
         yield yield_
+
+
+KERNEL = {}  # side information of the last build_problem(): the sample points / block sizes of a kernel system matrix
 
 
 def build_problem(case):
@@ -72,6 +79,13 @@ def build_problem(case):
     M = (Q * lam) @ Q.conj().T
     M = ((M + M.conj().T) / 2 * case.get("opscale", 1.0)).astype(P.DT[dt])  # CG is scale invariant: operators in tiny / huge units
     lam = lam * case.get("opscale", 1.0)
+    KERNEL.clear()
+    if case.get("opkind") == "kernel":
+        # the system matrix is a blocked, matrix-free kernel operator plus a nugget (block sizes that do not divide n)
+        xk = rng.standard_normal((n, 2))
+        M = (P.KERNELS["rbf"](xk, xk) + np.eye(n)).astype(P.DT["f8"])
+        lam = np.linalg.eigvalsh(M)
+        KERNEL.update(x=xk, bs1=int(case["bs"][0]), bs2=int(case["bs"][1]))
     shape = (n, ) if case["cols"] == 0 else (n, case["cols"])
     b = rng.standard_normal(shape) + (1j * rng.standard_normal(shape) if cplx else 0)
     b = b.astype(P.DT[dt])
@@ -116,9 +130,15 @@ class Counter:
 
 
 def counting_operator(M, counter):
+    Kop = None
+    if KERNEL and KERNEL["x"].shape[0] == M.shape[0]:
+        Kop = cola.ops.Kernel(KERNEL["x"], KERNEL["x"], P.KERNELS["rbf"], KERNEL["bs1"], KERNEL["bs2"])
+
     def matmat(X):
         counter.products += 1
         counter.columns.append(X.shape[-1] if X.ndim > 1 else 1)
+        if Kop is not None:
+            return Kop @ X + X  # (the real blocked operator does the product)
         return M @ X
     return cola.ops.LinearOperator(M.dtype, M.shape, matmat=matmat)
 
@@ -332,7 +352,7 @@ def run_case(ctx, case):
                 # Outside them finite-precision CG legitimately lags the exact optimum (e.g. outliers at cond 1e6 with a
                 # random x0: excess 5.4 at k=4; repeated eigenvalues at cond 1e6, random x0: 6e-2 at k=3).
                 r1 = k <= 2 or (k <= 4 and case["cond"] <= 1e2)
-                r2 = case["family"] == "uniform" and case["precond"] == "none" and case["x0"] in ("none", "zero") and k <= 30
+                r2 = case["family"] == "uniform" and not case.get("opkind") and case["precond"] == "none" and case["x0"] in ("none", "zero") and k <= 30
                 r3 = False
                 if not (r1 or r2 or r3):
                     continue
